@@ -308,7 +308,7 @@ func (cv *VartypeCheck) DependencyWithPath() {
 	}
 
 	parts := cv.MkLine.ValueSplit(value, ":")
-	if len(parts) != 2 {
+	if len(parts) != 2 || parts[1] == "" {
 		cv.Errorf("Invalid dependency pattern %q.", value)
 		cv.Explain(
 			"Examples of valid dependency patterns are:",
